@@ -3,7 +3,10 @@ import os
 from vlib import core, xh
 
 
-def main(prop, tier, file, obs, functions, assumptions, outside, signature, bounds, extra_results=None):
+def main(prop, tier, file, obs, functions, assumptions, outside, signature, bounds, extra_results=None, extra_chars=0):
+    if extra_chars:
+        os.environ["XH_EXTRA"] = str(extra_chars)   # read by harness/xhlib.py in every CrossHair process and in replays
+        bounds += " [thorough: every string bound raised by %d character(s)]" % extra_chars
     chk = core.Check(prop, tier, "harness." + prop, functions, bounds, assumptions, outside)
     byfile = {}
     for ob in obs:
